@@ -67,7 +67,8 @@ theorem gen_rtot_ttot (A : M22 K) : rtot A = Model.C17.rtot A ∧ ttot A = Model
 
 end gen
 
-/-- wiring of `multilayer_stack_rt` read off the AST: angles by Snell from the ambient medium, degrees→radians,
+/-- wiring of `multilayer_stack_rt` recognised in the AST (an unrecognised shape makes the item `untranslatable` and widens
+the correspondence instead): angles by Snell from the ambient medium, degrees→radians,
 argument order of the layer call, exit medium = last layer, polarisation dispatch, `r = rtot A`, `t = ttot A` -/
 theorem gen_structure :
     stackAnglesFromAmbientBySnell = true ∧ stackAoiDegreesToRadians = true ∧ stackLayerArgsInOrder = true ∧
